@@ -237,4 +237,383 @@ theorem weight_eq (s : Finset ι) (w : ι → ℝ) (hw : ∀ x ∈ s, 0 < w x) (
 
 end Core
 
+/-! ### List-level consequences -/
+
+section ListLevel
+
+theorem out_pos (r : List ℝ) (P : List (List ℝ)) (n m : ℕ) (hr : PosLaw r n)
+    (hP : IsChannel P n m) (x y : ℕ) (hx : x < n) (hxy : ent P x y ≠ 0) :
+    0 < vec (outputLaw r P) y := by
+  rw [vec_outputLaw r P n m hr.law.len hP.isMat]
+  have hle : vec r x * ent P x y ≤ ∑ x' ∈ range n, vec r x' * ent P x' y :=
+    single_le_sum (f := fun x' => vec r x' * ent P x' y)
+      (fun x' _ => mul_nonneg (hr.law.vec_nonneg x') (hP.ent_nonneg x' y)) (mem_range.mpr hx)
+  have : 0 < vec r x * ent P x y :=
+    mul_pos (hr.pos x hx) (lt_of_le_of_ne (hP.ent_nonneg x y) (Ne.symm hxy))
+  linarith
+
+theorem out_nonneg (r : List ℝ) (P : List (List ℝ)) (n m : ℕ) (hr : IsLaw r n)
+    (hP : IsChannel P n m) (y : ℕ) : 0 ≤ vec (outputLaw r P) y := by
+  rw [vec_outputLaw r P n m hr.len hP.isMat]
+  exact sum_nonneg (fun x _ => mul_nonneg (hr.vec_nonneg x) (hP.ent_nonneg x y))
+
+theorem capNextQ_nonneg (r : List ℝ) (P : List (List ℝ)) (n m : ℕ) (hr : IsLaw r n)
+    (hP : IsChannel P n m) (y x : ℕ) (hy : y < m) (hx : x < n) : 0 ≤ ent (capNextQ r P) y x := by
+  rw [ent_capNextQ r P n m hr.len hP.isMat y x hy hx]
+  exact div_nonneg (mul_nonneg (hr.vec_nonneg x) (hP.ent_nonneg x y)) (out_nonneg r P n m hr hP y)
+
+theorem capNextQ_sum (r : List ℝ) (P : List (List ℝ)) (n m : ℕ) (hr : IsLaw r n)
+    (hP : IsChannel P n m) (y : ℕ) (hy : y < m) :
+    ∑ x ∈ range n, ent (capNextQ r P) y x
+      = vec (outputLaw r P) y / vec (outputLaw r P) y := by
+  rw [sum_congr rfl (fun x hx => ent_capNextQ r P n m hr.len hP.isMat y x hy (mem_range.mp hx)),
+    ← sum_div, ← vec_outputLaw r P n m hr.len hP.isMat]
+
+theorem capNextQ_sum_le (r : List ℝ) (P : List (List ℝ)) (n m : ℕ) (hr : IsLaw r n)
+    (hP : IsChannel P n m) (y : ℕ) (hy : y < m) : ∑ x ∈ range n, ent (capNextQ r P) y x ≤ 1 := by
+  rw [capNextQ_sum r P n m hr hP y hy]
+  exact div_self_le_one _
+
+theorem capNextQ_pos (r : List ℝ) (P : List (List ℝ)) (n m : ℕ) (hr : PosLaw r n)
+    (hP : IsChannel P n m) (x y : ℕ) (hx : x < n) (hy : y < m) (hxy : ent P x y ≠ 0) :
+    0 < ent (capNextQ r P) y x := by
+  rw [ent_capNextQ r P n m hr.law.len hP.isMat y x hy hx]
+  exact div_pos (mul_pos (hr.pos x hx) (lt_of_le_of_ne (hP.ent_nonneg x y) (Ne.symm hxy)))
+    (out_pos r P n m hr hP x y hx hxy)
+
+/-- **(2a) list form**: `J(r, q) ≤ I(r; P)`. -/
+theorem capCC_le_channelMI (P : List (List ℝ)) (n m : ℕ) (hP : IsChannel P n m) (r : List ℝ)
+    (hr : IsLaw r n) (q : List (List ℝ)) (hq : ∀ y < m, ∀ x < n, 0 ≤ ent q y x)
+    (hqs : ∀ y < m, ∑ x ∈ range n, ent q y x ≤ 1)
+    (hdom : ∀ x < n, ∀ y < m, ent q y x = 0 → vec r x * ent P x y = 0) :
+    capCC (Real.logb 2) P q r ≤ channelMI (Real.logb 2) r P := by
+  rw [capCC_eq P q r n m hP.isMat, channelMI_eq r P n m hr.len hP.isMat]
+  simp only [vec_outputLaw r P n m hr.len hP.isMat]
+  exact J_le_mi (range n) (range m) (vec r) (ent P) (fun y x => ent q y x)
+    (fun x _ => hr.vec_nonneg x) (fun x _ y _ => hP.ent_nonneg x y)
+    (fun y hy x hx => hq y (mem_range.mp hy) x (mem_range.mp hx))
+    (fun y hy => hqs y (mem_range.mp hy))
+    (fun x hx y hy => hdom x (mem_range.mp hx) y (mem_range.mp hy))
+
+/-- **(2a) equality**: `J(r, next_q r) = I(r; P)` (shapes only). -/
+theorem capCC_posterior (r : List ℝ) (P : List (List ℝ)) (n m : ℕ) (hr : r.length = n)
+    (hP : IsMat P n m) :
+    capCC (Real.logb 2) P (capNextQ r P) r = channelMI (Real.logb 2) r P := by
+  rw [capCC_eq P _ r n m hP, channelMI_eq r P n m hr hP]
+  apply sum_congr rfl
+  intro x hx
+  rw [mul_sum]
+  apply sum_congr rfl
+  intro y hy
+  rw [ent_capNextQ r P n m hr hP y x (mem_range.mp hy) (mem_range.mp hx)]
+  exact post_term _ _ _
+
+/-- `J(r, q) = Σ_x r_x log₂ (w_x / r_x)` when `q` is non-zero where `P` is. -/
+theorem capCC_eq_weight (P : List (List ℝ)) (n m : ℕ) (hP : IsChannel P n m)
+    (q : List (List ℝ)) (hq : ∀ x < n, ∀ y < m, ent P x y ≠ 0 → ent q y x ≠ 0) (r : List ℝ) :
+    capCC (Real.logb 2) P q r
+      = ∑ x ∈ range n, vec r x * Real.logb 2 (capW P q m x / vec r x) := by
+  rw [capCC_eq P q r n m hP.isMat]
+  apply sum_congr rfl
+  intro x hx
+  exact row_weight (range m) (vec r x) (ent P x) (fun y => ent q y x)
+    (hP.sum_ent (mem_range.mp hx)) (fun y hy => hq x (mem_range.mp hx) y (mem_range.mp hy))
+
+/-- **(2b) list form**: `J(r, q) ≤ log₂ Σ_x w_x` for every law `r`. -/
+theorem capCC_le_log (P : List (List ℝ)) (n m : ℕ) (hP : IsChannel P n m)
+    (q : List (List ℝ)) (hq : ∀ x < n, ∀ y < m, ent P x y ≠ 0 → ent q y x ≠ 0) (r : List ℝ)
+    (hr : IsLaw r n) :
+    capCC (Real.logb 2) P q r ≤ Real.logb 2 (∑ x ∈ range n, capW P q m x) := by
+  rw [capCC_eq_weight P n m hP q hq r]
+  exact weight_le (range n) (vec r) (fun x => capW P q m x) (fun x _ => hr.vec_nonneg x)
+    hr.sum_vec (fun x _ => capW_pos P q m x)
+
+/-- **(2b) equality**: `J(next_r q, q) = log₂ Σ_x w_x`. -/
+theorem capCC_capNextR (P : List (List ℝ)) (n m : ℕ) (hP : IsChannel P n m) (hn : 0 < n)
+    (q : List (List ℝ)) (hq : ∀ x < n, ∀ y < m, ent P x y ≠ 0 → ent q y x ≠ 0) :
+    capCC (Real.logb 2) P q (capNextR (Real.logb 2) (fun x => (2 : ℝ) ^ x) P q)
+      = Real.logb 2 (∑ x ∈ range n, capW P q m x) := by
+  rw [capCC_eq_weight P n m hP q hq,
+    sum_congr rfl (fun x hx => by rw [vec_capNextR P q n m hP.isMat x (mem_range.mp hx)])]
+  exact weight_eq (range n) (fun x => capW P q m x) (fun x _ => capW_pos P q m x)
+    ⟨0, mem_range.mpr hn⟩
+
+/-- `next_r` returns a law with strictly positive entries, whatever `q` is. -/
+theorem capNextR_posLaw (P q : List (List ℝ)) (n m : ℕ) (hP : IsMat P n m) (hn : 0 < n) :
+    PosLaw (capNextR (Real.logb 2) (fun x => (2 : ℝ) ^ x) P q) n := by
+  have hW : 0 < ∑ x' ∈ range n, capW P q m x' :=
+    sum_pos (fun x _ => capW_pos P q m x) ⟨0, mem_range.mpr hn⟩
+  have hpos : ∀ x < n, 0 < vec (capNextR (Real.logb 2) (fun x => (2 : ℝ) ^ x) P q) x := by
+    intro x hx
+    rw [vec_capNextR P q n m hP x hx]
+    exact div_pos (capW_pos P q m x) hW
+  refine ⟨isLaw_of_vec _ n (capNextR_length P q n m hP) (fun x hx => (hpos x hx).le) ?_, hpos⟩
+  rw [sum_congr rfl (fun x hx => vec_capNextR P q n m hP x (mem_range.mp hx)), ← sum_div,
+    div_self hW.ne']
+
+/-! ### One pass -/
+
+theorem capStep_fst (P : List (List ℝ)) (r : List ℝ) :
+    (capStep (Real.logb 2) (fun x => (2 : ℝ) ^ x) P r).1
+      = capCC (Real.logb 2) P (capNextQ r P)
+          (capNextR (Real.logb 2) (fun x => (2 : ℝ) ^ x) P (capNextQ r P)) := rfl
+
+theorem capStep_snd (P : List (List ℝ)) (r : List ℝ) :
+    (capStep (Real.logb 2) (fun x => (2 : ℝ) ^ x) P r).2
+      = capNextR (Real.logb 2) (fun x => (2 : ℝ) ^ x) P (capNextQ r P) := rfl
+
+theorem capStep_posLaw (P : List (List ℝ)) (n m : ℕ) (hP : IsMat P n m) (hn : 0 < n)
+    (r : List ℝ) : PosLaw (capStep (Real.logb 2) (fun x => (2 : ℝ) ^ x) P r).2 n :=
+  capNextR_posLaw P _ n m hP hn
+
+/-- The sandwich `I(r;P) ≤ cc ≤ I(r';P)` for one pass from a positive law. -/
+theorem capStep_sandwich (P : List (List ℝ)) (n m : ℕ) (hP : IsChannel P n m) (r : List ℝ)
+    (hr : PosLaw r n) :
+    channelMI (Real.logb 2) r P ≤ (capStep (Real.logb 2) (fun x => (2 : ℝ) ^ x) P r).1
+    ∧ (capStep (Real.logb 2) (fun x => (2 : ℝ) ^ x) P r).1
+        ≤ channelMI (Real.logb 2) (capStep (Real.logb 2) (fun x => (2 : ℝ) ^ x) P r).2 P := by
+  have hn : 0 < n := hr.law.pos_len
+  have hqne : ∀ x < n, ∀ y < m, ent P x y ≠ 0 → ent (capNextQ r P) y x ≠ 0 :=
+    fun x hx y hy h => (capNextQ_pos r P n m hr hP x y hx hy h).ne'
+  have hr' := capStep_posLaw P n m hP.isMat hn r
+  rw [capStep_fst, capStep_snd] at *
+  constructor
+  · rw [← capCC_posterior r P n m hr.law.len hP.isMat,
+      capCC_capNextR P n m hP hn _ hqne]
+    exact capCC_le_log P n m hP _ hqne r hr.law
+  · apply capCC_le_channelMI P n m hP _ hr'.law _
+      (fun y hy x hx => capNextQ_nonneg r P n m hr.law hP y x hy hx)
+      (fun y hy => capNextQ_sum_le r P n m hr.law hP y hy)
+    intro x hx y hy h0
+    by_cases hxy : ent P x y = 0
+    · rw [hxy, mul_zero]
+    · exact absurd h0 (hqne x hx y hy hxy)
+
+/-! ### The loop -/
+
+theorem capLoop_succ (P : List (List ℝ)) (close : ℝ → ℝ → Bool) (fuel : ℕ) (old cc : ℝ)
+    (r : List ℝ) (it : ℕ) :
+    capLoop (Real.logb 2) (fun x => (2 : ℝ) ^ x) P close (fuel + 1) old cc r it
+      = if close cc old then (cc, r, it)
+        else capLoop (Real.logb 2) (fun x => (2 : ℝ) ^ x) P close fuel cc
+          (capStep (Real.logb 2) (fun x => (2 : ℝ) ^ x) P r).1
+          (capStep (Real.logb 2) (fun x => (2 : ℝ) ^ x) P r).2 (it + 1) := rfl
+
+/-- Any invariant of `(cc, r)` preserved by one pass holds for the result of the loop, and the
+pass counter grows by at most the fuel. -/
+theorem capLoop_spec (P : List (List ℝ)) (close : ℝ → ℝ → Bool) (Inv : ℝ → List ℝ → Prop)
+    (hstep : ∀ cc r, Inv cc r → Inv (capStep (Real.logb 2) (fun x => (2 : ℝ) ^ x) P r).1
+      (capStep (Real.logb 2) (fun x => (2 : ℝ) ^ x) P r).2) :
+    ∀ (fuel : ℕ) (old cc : ℝ) (r : List ℝ) (it : ℕ), Inv cc r →
+      Inv (capLoop (Real.logb 2) (fun x => (2 : ℝ) ^ x) P close fuel old cc r it).1
+        (capLoop (Real.logb 2) (fun x => (2 : ℝ) ^ x) P close fuel old cc r it).2.1
+      ∧ it ≤ (capLoop (Real.logb 2) (fun x => (2 : ℝ) ^ x) P close fuel old cc r it).2.2
+      ∧ (capLoop (Real.logb 2) (fun x => (2 : ℝ) ^ x) P close fuel old cc r it).2.2
+          ≤ it + fuel := by
+  intro fuel
+  induction fuel with
+  | zero => intro old cc r it h; exact ⟨h, le_refl _, le_refl _⟩
+  | succ fuel ih =>
+    intro old cc r it h
+    rw [capLoop_succ]
+    by_cases hc : close cc old = true
+    · rw [if_pos hc]; exact ⟨h, le_refl _, Nat.le_add_right it (fuel + 1)⟩
+    · rw [if_neg hc]
+      obtain ⟨h1, h2, h3⟩ := ih cc _ _ (it + 1) (hstep cc r h)
+      exact ⟨h1, by omega, by omega⟩
+
+theorem uniform_posLaw (n : ℕ) (hn : 0 < n) : PosLaw (uniformLaw n) n :=
+  ⟨uniformLaw_isLaw n hn, fun x hx => by rw [vec_uniformLaw n x hx]; positivity⟩
+
+theorem capRun_eq (P : List (List ℝ)) (close : ℝ → ℝ → Bool) (fuel : ℕ) :
+    capRun (Real.logb 2) (fun x => (2 : ℝ) ^ x) (fun k => (k : ℝ)) P close fuel
+      = capLoop (Real.logb 2) (fun x => (2 : ℝ) ^ x) P close fuel 0
+          (capStep (Real.logb 2) (fun x => (2 : ℝ) ^ x) P (uniformLaw P.length)).1
+          (capStep (Real.logb 2) (fun x => (2 : ℝ) ^ x) P (uniformLaw P.length)).2 1 := rfl
+
+/-- The result of `capRun` is one `capStep` applied to some positive law, and the number of
+passes is between `1` and `fuel + 1`. -/
+theorem capRun_inv (P : List (List ℝ)) (n m : ℕ) (hP : IsMat P n m) (hn : 0 < n)
+    (close : ℝ → ℝ → Bool) (fuel : ℕ) :
+    (∃ rp, PosLaw rp n ∧ capStep (Real.logb 2) (fun x => (2 : ℝ) ^ x) P rp
+      = ((capRun (Real.logb 2) (fun x => (2 : ℝ) ^ x) (fun k => (k : ℝ)) P close fuel).1,
+         (capRun (Real.logb 2) (fun x => (2 : ℝ) ^ x) (fun k => (k : ℝ)) P close fuel).2.1))
+    ∧ 1 ≤ (capRun (Real.logb 2) (fun x => (2 : ℝ) ^ x) (fun k => (k : ℝ)) P close fuel).2.2
+    ∧ (capRun (Real.logb 2) (fun x => (2 : ℝ) ^ x) (fun k => (k : ℝ)) P close fuel).2.2
+        ≤ fuel + 1 := by
+  rw [capRun_eq, hP.len]
+  have h := capLoop_spec P close
+    (fun cc r => ∃ rp, PosLaw rp n ∧ capStep (Real.logb 2) (fun x => (2 : ℝ) ^ x) P rp = (cc, r))
+    (by
+      rintro cc r ⟨rp, hrp, he⟩
+      have hr : PosLaw r n := by
+        have := capStep_posLaw P n m hP hn rp
+        rw [he] at this; exact this
+      exact ⟨r, hr, rfl⟩)
+    fuel 0 _ _ 1 ⟨uniformLaw n, uniform_posLaw n hn, rfl⟩
+  obtain ⟨h1, h2, h3⟩ := h
+  exact ⟨h1, h2, by rw [Nat.add_comm]; exact h3⟩
+
+end ListLevel
+
+/-! ### Closed form of one pass, the fixed point, and `baCapacityStep` -/
+
+section Fixed
+
+/-- `D(P_x ‖ rP)` as a range sum. -/
+noncomputable def rowDiv (r : List ℝ) (P : List (List ℝ)) (m x : ℕ) : ℝ :=
+  ∑ y ∈ range m, ent P x y * Real.logb 2 (ent P x y / vec (outputLaw r P) y)
+
+/-- With the posterior of a positive law the weights are `w_x = r_x 2^{D(P_x‖rP)}`. -/
+theorem capW_posterior (r : List ℝ) (P : List (List ℝ)) (n m : ℕ) (hr : PosLaw r n)
+    (hP : IsChannel P n m) (x : ℕ) (hx : x < n) :
+    capW P (capNextQ r P) m x = vec r x * (2 : ℝ) ^ (rowDiv r P m x) := by
+  have hrx := hr.pos x hx
+  have e : ∀ y ∈ range m, ent P x y * Real.logb 2 (ent (capNextQ r P) y x)
+      = Real.logb 2 (vec r x) * ent P x y
+        + ent P x y * Real.logb 2 (ent P x y / vec (outputLaw r P) y) := by
+    intro y hy
+    rw [ent_capNextQ r P n m hr.law.len hP.isMat y x (mem_range.mp hy) hx]
+    by_cases hxy : ent P x y = 0
+    · simp [hxy]
+    · have hR := out_pos r P n m hr hP x y hx hxy
+      rw [mul_div_assoc, Real.logb_mul hrx.ne' (div_ne_zero hxy hR.ne')]
+      ring
+  unfold capW
+  rw [sum_congr rfl e, sum_add_distrib, ← mul_sum, hP.sum_ent hx, mul_one,
+    Real.rpow_add (by norm_num), Real.rpow_logb (by norm_num) (by norm_num) hrx]
+  rfl
+
+/-- Entries of the new law in the textbook form `r'_x = r_x 2^{D_x} / Σ r 2^{D}`. -/
+theorem vec_capStep_snd (r : List ℝ) (P : List (List ℝ)) (n m : ℕ) (hr : PosLaw r n)
+    (hP : IsChannel P n m) (x : ℕ) (hx : x < n) :
+    vec (capStep (Real.logb 2) (fun x => (2 : ℝ) ^ x) P r).2 x
+      = vec r x * (2 : ℝ) ^ (rowDiv r P m x)
+        / ∑ x' ∈ range n, vec r x' * (2 : ℝ) ^ (rowDiv r P m x') := by
+  rw [capStep_snd, vec_capNextR P _ n m hP.isMat x hx, capW_posterior r P n m hr hP x hx,
+    sum_congr rfl (fun x' hx' => capW_posterior r P n m hr hP x' (mem_range.mp hx'))]
+
+/-- The reported value in closed form: `cc = log₂ Σ_x r_x 2^{D(P_x‖rP)}`. -/
+theorem capStep_fst_closed (r : List ℝ) (P : List (List ℝ)) (n m : ℕ) (hr : PosLaw r n)
+    (hP : IsChannel P n m) :
+    (capStep (Real.logb 2) (fun x => (2 : ℝ) ^ x) P r).1
+      = Real.logb 2 (∑ x ∈ range n, vec r x * (2 : ℝ) ^ (rowDiv r P m x)) := by
+  rw [capStep_fst, capCC_capNextR P n m hP hr.law.pos_len _
+    (fun x hx y hy h => (capNextQ_pos r P n m hr hP x y hx hy h).ne'),
+    sum_congr rfl (fun x' hx' => capW_posterior r P n m hr hP x' (mem_range.mp hx'))]
+
+/-- At a fixed point of the pass every row divergence equals `log₂ Σ_x r_x 2^{D_x}`. -/
+theorem fixed_rows (r : List ℝ) (P : List (List ℝ)) (n m : ℕ) (hr : PosLaw r n)
+    (hP : IsChannel P n m)
+    (hfix : (capStep (Real.logb 2) (fun x => (2 : ℝ) ^ x) P r).2 = r) (x : ℕ) (hx : x < n) :
+    rowDiv r P m x = Real.logb 2 (∑ x' ∈ range n, vec r x' * (2 : ℝ) ^ (rowDiv r P m x')) := by
+  have h := vec_capStep_snd r P n m hr hP x hx
+  rw [hfix] at h
+  have hrx := hr.pos x hx
+  have hZ : 0 < ∑ x' ∈ range n, vec r x' * (2 : ℝ) ^ (rowDiv r P m x') :=
+    sum_pos (fun x' hx' => mul_pos (hr.pos x' (mem_range.mp hx'))
+      (Real.rpow_pos_of_pos (by norm_num) _)) ⟨0, mem_range.mpr hr.law.pos_len⟩
+  have h2 : (2 : ℝ) ^ (rowDiv r P m x)
+      = ∑ x' ∈ range n, vec r x' * (2 : ℝ) ^ (rowDiv r P m x') := by
+    rw [eq_div_iff hZ.ne'] at h
+    exact (mul_left_cancel₀ hrx.ne' h).symm
+  rw [← h2, Real.logb_rpow (by norm_num) (by norm_num)]
+
+theorem zipWith_eq_range_map {β γ δ : Type} (f : β → γ → δ) (d1 : β) (d2 : γ) (l1 : List β)
+    (l2 : List γ) (n : ℕ) (h1 : l1.length = n) (h2 : l2.length = n) :
+    List.zipWith f l1 l2 = (List.range n).map (fun i => f (l1.getD i d1) (l2.getD i d2)) := by
+  apply List.ext_getElem
+  · simp [h1, h2]
+  · intro i hi1 hi2
+    have hi : i < n := by simpa [h1, h2] using hi1
+    simp [List.getD_eq_getElem?_getD, h1, h2, hi]
+
+/-- `next_r ∘ next_q` is the model's one-step `baCapacityStep` (shapes only). -/
+theorem capStep_snd_eq_baCapacityStep (r : List ℝ) (P : List (List ℝ)) (n m : ℕ)
+    (hr : r.length = n) (hP : IsMat P n m) (hn : 0 < n) :
+    (capStep (Real.logb 2) (fun x => (2 : ℝ) ^ x) P r).2
+      = baCapacityStep (Real.logb 2) (fun x => (2 : ℝ) ^ x) r P := by
+  have hw : List.zipWith (fun rx px => (2 : ℝ) ^ (lsum (List.zipWith
+        (fun pxy qy => if pxy == 0 then 0 else pxy * Real.logb 2 (rx * pxy / qy)) px
+        (outputLaw r P)))) r P = (List.range n).map (capW P (capNextQ r P) m) := by
+    rw [zipWith_eq_range_map _ 0 [] r P n hr hP.len]
+    apply List.map_congr_left
+    intro x hx
+    rw [List.mem_range] at hx
+    rw [lsum_eq_sum, sum_zipWith_range _ 0 0 _ _ m (hP.row_len hx)
+      (outputLaw_length r P n m hP hn)]
+    unfold capW
+    congr 1
+    apply sum_congr rfl
+    intro y hy
+    rw [guard, ent_capNextQ r P n m hr hP y x (mem_range.mp hy) hx]
+    rfl
+  have e : baCapacityStep (Real.logb 2) (fun x => (2 : ℝ) ^ x) r P
+      = (List.zipWith (fun rx px => (2 : ℝ) ^ (lsum (List.zipWith
+        (fun pxy qy => if pxy == 0 then 0 else pxy * Real.logb 2 (rx * pxy / qy)) px
+        (outputLaw r P)))) r P).map (· / lsum (List.zipWith (fun rx px => (2 : ℝ) ^ (lsum
+        (List.zipWith (fun pxy qy => if pxy == 0 then 0 else pxy * Real.logb 2 (rx * pxy / qy))
+        px (outputLaw r P)))) r P)) := rfl
+  rw [e, hw, capStep_snd, capNextR_eq P _ n m hP, lsum_eq_sum, sum_range_map, List.map_map]
+  rfl
+
+end Fixed
+
+/-! ### Shapes of `next_q`; fixed points from equal row divergences -/
+
+section More
+
+theorem capNextQ_length (r : List ℝ) (P : List (List ℝ)) (n m : ℕ) (hP : IsMat P n m)
+    (hn : 0 < n) : (capNextQ r P).length = m := by
+  unfold capNextQ
+  simp [outputLaw_length r P n m hP hn]
+
+theorem capNextQ_row_length (r : List ℝ) (P : List (List ℝ)) (n m : ℕ) (hr : r.length = n)
+    (hP : IsMat P n m) (y : ℕ) (hy : y < m) : ((capNextQ r P).getD y []).length = n := by
+  have hlen : (outputLaw r P).length = m := outputLaw_length r P n m hP (by
+    rcases Nat.eq_zero_or_pos n with h0 | h0
+    · exfalso
+      have hl := hP.len
+      rw [h0] at hl
+      have : P = [] := List.eq_nil_of_length_eq_zero hl
+      rw [this] at hlen_aux
+      exact hlen_aux
+    · exact h0)
+  unfold capNextQ
+  simp only [hlen]
+  rw [getD_range_map m _ [] y hy]
+  simp [hr, hP.len]
+
+theorem rowDiv_eq_klRow (r : List ℝ) (P : List (List ℝ)) (n m : ℕ) (hP : IsMat P n m)
+    (hn : 0 < n) (x : ℕ) (hx : x < n) :
+    rowDiv r P m x = klRow (Real.logb 2) (P.getD x []) (outputLaw r P) := by
+  rw [klRow_eq _ _ m (hP.row_len hx) (outputLaw_length r P n m hP hn)]
+  rfl
+
+theorem list_ext_vec (l1 l2 : List ℝ) (n : ℕ) (h1 : l1.length = n) (h2 : l2.length = n)
+    (h : ∀ x < n, vec l1 x = vec l2 x) : l1 = l2 := by
+  apply List.ext_getElem (by rw [h1, h2])
+  intro i hi1 hi2
+  have := h i (by omega)
+  simpa [vec, List.getD_eq_getElem?_getD, List.getElem?_eq_getElem hi1,
+    List.getElem?_eq_getElem hi2] using this
+
+/-- Converse of `fixed_rows`: a positive law all of whose row divergences are equal is returned
+unchanged by one pass, and the reported value is that common divergence. -/
+theorem fixed_of_rows (r : List ℝ) (P : List (List ℝ)) (n m : ℕ) (hr : PosLaw r n)
+    (hP : IsChannel P n m) (D : ℝ) (hD : ∀ x < n, rowDiv r P m x = D) :
+    (capStep (Real.logb 2) (fun x => (2 : ℝ) ^ x) P r).2 = r
+    ∧ (capStep (Real.logb 2) (fun x => (2 : ℝ) ^ x) P r).1 = D := by
+  have h2 : (0 : ℝ) < (2 : ℝ) ^ D := Real.rpow_pos_of_pos (by norm_num) _
+  have hZ : ∑ x' ∈ range n, vec r x' * (2 : ℝ) ^ (rowDiv r P m x') = (2 : ℝ) ^ D := by
+    rw [sum_congr rfl (fun x' hx' => by rw [hD x' (mem_range.mp hx')]), ← sum_mul,
+      hr.law.sum_vec, one_mul]
+  constructor
+  · apply list_ext_vec _ _ n (capStep_posLaw P n m hP.isMat hr.law.pos_len r).law.len hr.law.len
+    intro x hx
+    rw [vec_capStep_snd r P n m hr hP x hx, hZ, hD x hx, mul_div_assoc, div_self h2.ne', mul_one]
+  · rw [capStep_fst_closed r P n m hr hP, hZ, Real.logb_rpow (by norm_num) (by norm_num)]
+
+end More
+
 end Dit.Lemmas.CapLoop
